@@ -8,6 +8,9 @@ WT=/tmp/wt/sweep
 git -C /repo worktree remove --force "$WT" 2>/dev/null
 git -C /repo worktree add --detach "$WT" HEAD >/dev/null 2>&1 || { echo "cannot create worktree"; exit 2; }
 export FEDJAX_SRC="$WT"
+# scratch and evidence of these runs are kept aside (the real evidence files describe the unchanged tree)
+export VERIF_SIDE=/tmp/wt/sweep_side
+rm -rf "$VERIF_SIDE"; mkdir -p "$VERIF_SIDE"
 tmp=$(mktemp)
 echo "{" > "$tmp"
 first=1
@@ -30,3 +33,4 @@ done
 echo "" >> "$tmp"; echo "}" >> "$tmp"
 mv "$tmp" seeded/RESULTS.json
 git -C /repo worktree remove --force "$WT"
+rm -rf "$VERIF_SIDE"
